@@ -257,6 +257,25 @@ def post_uncollapse(old, result, exc, args, kw):
         _fail('uncollapse-differs', 'restored %s, original %s'
               % (model.show(after, ''), model.show(original, '')))
         return
+    # words and positions belong to tokens: a restored constituent above a
+    # token must not carry that token's word or position
+    for n in after.nodes():
+        if not n.children:
+            continue
+        raw = n.ref.data
+        low = n
+        while len(low.children) == 1:
+            low = low.children[0]
+        if low.children:
+            continue
+        w = raw.get('word')
+        if raw.get('num') is not None or (
+                isinstance(w, str) and w != '' and not w.startswith('#')
+                and w == low.word):
+            _fail('uncollapse-token-fields-on-constituent',
+                  'restored constituent %r above token %r carries word %r, '
+                  'num %r' % (n.label, low.word, w, raw.get('num')))
+            return
     chains = any(len(n.children) == 1 for n in original.nodes())
     Cur.ctx.case(['unc', model.canon(original, 'p')], nontrivial=chains)
 
@@ -381,9 +400,18 @@ def shard(ctx):
         run_collapse(ctx, {'kind': 'collapse', 'spec': spec}, rng)
         if i < 2:
             ctx.sample({'collapse': model.show(model.from_spec(spec['root']), '')})
+    # ---- inside sequences of other transformations (vt/pipeline.py) ----
+    from . import pipeline
+    pipeline.run(ctx, Cur, ('binarize', 'collapse_unary_chains', 'uncollapse_unary_chains'), 1500, 60000)
+
 
 
 def replay(ctx, case):
+    if case.get('kind') == 'pipeline':
+        install(ctx.R)
+        from . import pipeline
+        pipeline.run_case(ctx, Cur, case, ctx.rng('replay'))
+        return
     install(ctx.R)
     rng = ctx.rng('replay')
     if case['kind'] == 'binarize':
